@@ -47,7 +47,8 @@ def respell(rng, lex, kinds):
                 j = i + 1
                 while j < n and lex[j][0] in ('_', 'nl'): j += 1
                 if j < n and lex[j] == ('p', ';'):
-                    out.append('\n')
+                    # what follows may be on the same line (another END_IF, the next statement), after blanks or a comment
+                    out.append(rng.choice(['\n', '\n', ' ', '\t', ' (* c *) ', '  (* ; *)  ', '\r\n']))
                     i = j
         elif k == 'pk':
             w = x[1]
